@@ -38,6 +38,11 @@ type c19Case struct {
 	Net      vfNetCfg  `json:"net"`
 	Channels []c19Chan `json:"channels"`
 	DataSeed uint64    `json:"data_seed"`
+	// Reenter: the OnMessage handlers read the channel's accessors (an echo server does).
+	// Poke: while messages flow, another goroutine keeps using the receiving channels' setters and
+	// the connection's GetStats (calls that take the channel's lock for writing).
+	Reenter bool `json:"reenter,omitempty"`
+	Poke    bool `json:"poke,omitempty"`
 }
 
 func vfGenNet(r *vfRand, faulty bool) vfNetCfg {
@@ -60,7 +65,7 @@ func vfGenNet(r *vfRand, faulty bool) vfNetCfg {
 
 func c19Gen(seed uint64, idx, total int, tier string) any {
 	r := vfNewRand(seed, "c19")
-	c := &c19Case{NetSeed: r.U64(), DataSeed: r.U64(), Net: vfGenNet(r, r.Bool(0.7))}
+	c := &c19Case{NetSeed: r.U64(), DataSeed: r.U64(), Net: vfGenNet(r, r.Bool(0.7)), Reenter: r.Bool(0.5), Poke: r.Bool(0.5)}
 	nc := r.Range(1, 4)
 	for i := 0; i < nc; i++ {
 		ch := c19Chan{Label: fmt.Sprintf("ch%d-%x", i, r.Intn(1<<16)), PreOffer: i == 0 || r.Bool(0.3)}
@@ -198,10 +203,29 @@ func c19Run(t *testing.T, cj []byte, res *vfResult) {
 			st.remote = dc
 			st.mu.Unlock()
 			dc.OnMessage(func(m DataChannelMessage) {
+				if c.Reenter {
+					_ = dc.Label()
+					_ = dc.ReadyState()
+					_ = dc.BufferedAmount()
+					_ = dc.ID()
+				}
 				st.mu.Lock()
 				st.recv = append(st.recv, c19Recv{append([]byte{}, m.Data...), m.IsString})
 				st.mu.Unlock()
 			})
+			if c.Poke {
+				go func() {
+					for i := 0; i < 4000 && dc.ReadyState() != DataChannelStateClosed; i++ {
+						dc.SetBufferedAmountLowThreshold(uint64(1000 + i))
+						dc.OnBufferedAmountLow(func() {})
+						if i%8 == 0 {
+							_ = a.pc.GetStats()
+							_ = b.pc.GetStats()
+						}
+						time.Sleep(3 * time.Millisecond)
+					}
+				}()
+			}
 		}
 		a.pc.OnDataChannel(onRemote)
 		b.pc.OnDataChannel(onRemote)
